@@ -146,11 +146,9 @@ theorem xml_stable (s : SurveyState) : ∀ (n : Nat) (sn : SurveyState),
 
 /-- Component for `_translations`, which `xml()` does not reset: replaying a sequence of dict
 assignments (`d[k] = v`, insertion-ordered dict, any initial content, repeated keys allowed) on its
-own result changes nothing — neither values nor key order.  PARTIAL as a statement about
-`_translations`: it covers the entries `_setup_translations` assigns, seen as one flat dict keyed by
-(language, path, form); the nesting, the fresh leaf dicts of choices, `_setup_media` and the padding are
-covered by the regeneration oracle only. -/
-theorem dict_writes_idempotent_partial {κ ν : Type} [DecidableEq κ] (d ws : List (κ × ν)) :
+own result changes nothing — neither values nor key order.  (Flat dicts; the nested `_translations`
+table with media and padding is `itext_setup_idempotent` in `C14Itext.lean`.) -/
+theorem dict_writes_idempotent {κ ν : Type} [DecidableEq κ] (d ws : List (κ × ν)) :
     asetAll (asetAll d ws) ws = asetAll d ws := asetAll_idem d ws
 
 example : asetAll [(1, "a")] [(2, "x"), (1, "b"), (2, "y")] = [(1, "b"), (2, "y")]
